@@ -1,5 +1,7 @@
 import Woodpile.Driver.Util
 import Woodpile.Model.RoughTlv
+import Woodpile.Model.RoughTlvApi
+import Woodpile.Gen.Consts
 
 /-!
 Model drivers for the families `tlv` (C11) and `tlvview` (C12).
@@ -13,7 +15,10 @@ validated here; items are `tag:kind:payload` with kind `b`/`o` = borrowed/owned
 bytes, `m` = the message in an earlier slot, `v` = a `MessageView` of that
 slot's encoding (a received message re-used as a value), `f` = a value whose
 `rough_tlv_len` reports the given number and which is never encoded);
-`I enc <slot> <sink>` encodes the slot's message and views the result.
+`I enc <slot> <sink>` encodes the slot's message and views the result; it answers
+`calls <b|c><len>,…` (the `ZeroCopySink` calls `encode` makes, in order: method and
+length), for sink `hcobs` also `wire <hex>` (what the HCOBS `Encoder` sink holds after
+`finish`: the encoder model run on those calls), then `bytes <hex>` and the view lines.
 -/
 namespace Woodpile.Driver.RoughTlvFam
 open Woodpile.Driver Woodpile.RoughTlv
@@ -63,7 +68,9 @@ def viewObs (d : List UInt8) (lookups : List Nat) : Option (List String) := do
       "iter " ++ (if it.isEmpty then "-" else ";".intercalate (it.map pairStr)),
       "get " ++ " ".intercalate gets,
       "getv " ++ " ".intercalate getvs,
-      "find " ++ (if finds.isEmpty then "-" else " ".intercalate finds)]
+      "find " ++ (if finds.isEmpty then "-" else " ".intercalate finds),
+      -- `inner()` / `into_inner()`: the bytes the view was built from (track apigaps)
+      "inner " ++ toHex v.inner ++ " " ++ b01 (v.intoInner == v.inner)]
 
 def viewObsOrPanic (d : List UInt8) (lookups : List Nat) : List String :=
   match viewObs d lookups with
@@ -78,29 +85,35 @@ def viewStep (s : Unit) : List String → Unit × List String
     | some d, some lookups =>
       if lookups.all (· < 4294967296) then (s, viewObsOrPanic d lookups) else (s, ["bad-op"])
     | _, _ => (s, ["bad-op"])
+  -- `Tag` conversions and ordering (track apigaps): `tag <u32> <u32>`
+  | ["tag", a, b] =>
+    match a.toNat?, b.toNat? with
+    | some x, some y =>
+      if x < 4294967296 ∧ y < 4294967296 then
+        let ta := tagOfU32 x
+        let tb := tagOfU32 y
+        let ord (o : Ordering) : String := match o with | .lt => "lt" | .eq => "eq" | .gt => "gt"
+        (s, ["tag a=" ++ toString (tagValue ta) ++ ":" ++ toHex ta ++ " b=" ++ toString (tagValue tb) ++ ":" ++ toHex tb
+              ++ " cmp=" ++ ord (tagCmp ta tb)
+              ++ " pcmp=" ++ (match tagPartialCmp ta tb with | some o => ord o | none => "none")
+              ++ " new=" ++ toString (tagValue (tagNew ta))])
+      else (s, ["bad-op"])
+    | _, _ => (s, ["bad-op"])
   | _ => (s, ["bad-op"])
 
 def viewFamily : Family := { σ := Unit, init := (), step := viewStep }
 
-/-! ### Family `tlv` -/
+/-! ### Family `tlv`
 
-/-- A value as the model sees it: what it writes, what it says its length is,
-and whether it is (or contains) a never-encoded fake. -/
-structure DVal where
-  bytes : List UInt8
-  len : Nat
-  fake : Bool
-
-structure St where
-  slots : Array (Option (Wrapper DVal))
+The state machine (`TlvSt`, `TlvSt.msg`, the value type `DVal`) lives in the model
+(Model/RoughTlv.lean) so that `Props/C11.dval_lawful` is about exactly what runs
+here; this file only parses the op words into `Ctor` / `ItemSpec` and prints. -/
 
 def encErrStr : EncErr → String
   | .nonMonotonicTags i a b => "nonMonotonicTags " ++ toString i ++ " " ++ toString a ++ " " ++ toString b
   | .tooManyElements n => "tooManyElements " ++ toString n
   | .valueTooLarge r s => "valueTooLarge " ++ toString r ++ " " ++ toString s
   | .totalTooLarge c s => "totalTooLarge " ++ toString c ++ " " ++ toString s
-
-def hasFake (w : Wrapper DVal) : Bool := w.entries.any (·.2.fake)
 
 def kindAllowed (vt : String) (k : String) : Bool :=
   match vt with
@@ -110,7 +123,13 @@ def kindAllowed (vt : String) (k : String) : Bool :=
   | "h" => k == "b" || k == "o" || k == "m" || k == "v" || k == "f"
   | _ => false
 
-def parseItem (s : St) (vt : String) (item : String) : Option (Pair DVal) :=
+/-- Which sink method the Rust value type `vt` uses for a `b`/`o` item:
+`Cow::Borrowed` → `append_borrow`, `Cow::Owned` → `append_copy` (`cow`, `str`, the
+harness enum `h`); a plain `&[u8]` (`ref`) is always `append_copy`. -/
+def methodOf (vt k : String) : Woodpile.Hcobs.Method :=
+  if vt == "ref" then .copy else if k == "b" then .borrow else .copy
+
+def parseItem (vt : String) (item : String) : Option (UInt32 × ItemSpec) :=
   match item.splitOn ":" with
   | [tag, k, payload] =>
     if !kindAllowed vt k then none else
@@ -122,54 +141,48 @@ def parseItem (s : St) (vt : String) (item : String) : Option (Pair DVal) :=
         match parseHex payload with
         | some bs =>
           if vt == "str" && bs.any (· ≥ 128) then none
-          else some (UInt32.ofNat t, ⟨bs, bs.length, false⟩)
+          else some (UInt32.ofNat t, .bytes (methodOf vt k) bs)
         | none => none
       else if k == "m" then
-        match payload.toNat? with
-        | some i =>
-          match s.slots[i]? with
-          | some (some w) =>
-            some (UInt32.ofNat t, ⟨w.bytes DVal.bytes DVal.len, w.tlvLen, hasFake w⟩)
-          | _ => none
-        | none => none
+        payload.toNat?.map (fun i => (UInt32.ofNat t, .msg i))
       else if k == "v" then
-        -- `MessageView` of the slot's encoding used as a value: writes its storage, reports its length
-        match payload.toNat? with
-        | some i =>
-          match s.slots[i]? with
-          | some (some w) =>
-            if hasFake w then none else
-            let bs := w.bytes DVal.bytes DVal.len
-            some (UInt32.ofNat t, ⟨bs, bs.length, false⟩)
-          | _ => none
-        | none => none
+        payload.toNat?.map (fun i => (UInt32.ofNat t, .view i))
       else
         match payload.toNat? with
-        | some n => if n ≥ 18446744073709551616 then none else some (UInt32.ofNat t, ⟨[], n, true⟩)
+        | some n => if n ≥ 18446744073709551616 then none else some (UInt32.ofNat t, .fake n)
         | none => none
   | _ => none
 
-def parseItems (s : St) (vt : String) (items : String) : Option (List (Pair DVal)) :=
-  if items = "-" then some [] else (items.splitOn ",").mapM (parseItem s vt)
+def parseItems (vt : String) (items : String) : Option (List (UInt32 × ItemSpec)) :=
+  if items = "-" then some [] else (items.splitOn ",").mapM (parseItem vt)
+
+def parseCtor : String → Option Ctor
+  | "new" => some .new
+  | "sorted" => some .sorted
+  | "slice" => some .slice
+  | _ => none
 
 def tagLookups (tags : List Nat) : List Nat :=
   (tags.map (fun t => [t, (t + 1) % 4294967296])).flatten.eraseDups
 
-def step (s : St) : List String → St × List String
+/-- `b<len>` = `append_borrow` of `len` bytes, `c<len>` = `append_copy`. -/
+def callStr (p : Piece) : String :=
+  (match p.1 with | .borrow => "b" | .copy => "c") ++ toString p.2.length
+
+def callsStr (cs : List Piece) : String :=
+  if cs.isEmpty then "-" else ",".intercalate (cs.map callStr)
+
+def prodParams : Woodpile.Hcobs.Params := ⟨Woodpile.Gen.maxInit, Woodpile.Gen.maxSub, Woodpile.Gen.radix⟩
+
+def step (s : TlvSt) : List String → TlvSt × List String
   | ["msg", ctor, vt, items] =>
-    match parseItems s vt items with
-    | none => (s, ["bad-op"])
-    | some es =>
-      let r? : Option (Except EncErr (Wrapper DVal)) :=
-        match ctor with
-        | "new" => some (Wrapper.new DVal.len es)
-        | "sorted" => some (Wrapper.newFromSorted DVal.len es)
-        | "slice" => some (Wrapper.newFromSlice DVal.len es)
-        | _ => none
-      match r? with
+    match parseCtor ctor, parseItems vt items with
+    | some c, some its =>
+      match s.msg c its with
       | none => (s, ["bad-op"])
-      | some (.ok w) => ({ slots := s.slots.push (some w) }, ["ok " ++ toString w.tlvLen])
-      | some (.error e) => ({ slots := s.slots.push none }, ["err " ++ encErrStr e])
+      | some (s', .ok w) => (s', ["ok " ++ toString w.tlvLen])
+      | some (s', .error e) => (s', ["err " ++ encErrStr e])
+    | _, _ => (s, ["bad-op"])
   | ["enc", slot, sink] =>
     if sink ≠ "iov" ∧ sink ≠ "hcobs" then (s, ["bad-op"]) else
     match slot.toNat? with
@@ -178,19 +191,23 @@ def step (s : St) : List String → St × List String
       match s.slots[i]? with
       | some (some w) =>
         if hasFake w then (s, ["bad-op"]) else
-        match w.encode DVal.bytes DVal.len with
+        match w.encodePieces DVal.calls DVal.len with
         | none => (s, ["panic"])
-        | some out =>
+        | some cs =>
+          let out := flat cs
           let lookups :=
             match (View.mk out).tags with
             | some tags => tagLookups tags
             | none => []
+          -- the `hcobs::Encoder` sink: the encoder model fed these calls by these methods
+          let wire := if sink = "hcobs" then
+              ["wire " ++ toHex (Woodpile.Hcobs.Enc.output prodParams cs).bytes] else []
           match viewObs out lookups with
           | none => (s, ["panic"])
-          | some ls => (s, ("bytes " ++ toHex out) :: ls)
+          | some ls => (s, ("calls " ++ callsStr cs) :: wire ++ ("bytes " ++ toHex out) :: ls)
       | _ => (s, ["bad-op"])
   | _ => (s, ["bad-op"])
 
-def family : Family := { σ := St, init := ⟨#[]⟩, step := step }
+def family : Family := { σ := TlvSt, init := TlvSt.init, step := step }
 
 end Woodpile.Driver.RoughTlvFam
